@@ -8,7 +8,8 @@
 //!   d → `d<f>:<l>:<c>=<stem>@<selection>/<target>,…`   (links in response order) | `err`
 //!   c → `c<f>:<l>:<c>=<label>,…`                       (sorted, duplicates kept)  | `err`
 //!   o → `o<f>=<outline>`                               (documentSymbol of file f)
-//! A stem may contain `/` (sub-directory).  The directory is removed afterwards.
+//! A stem may contain `/` (sub-directory).  The directory is removed afterwards.  Each queried file
+//! gets its own manager (fresh index, nothing analysed yet) that serves all queries on that file.
 use std::path::PathBuf;
 use std::sync::atomic::{AtomicUsize, Ordering};
 
@@ -130,11 +131,10 @@ pub fn run(words: &[&str]) -> String {
     // the server's start-up sequence (main_loop): ProjectManager::new(root_uri) + index_files()
     let root = std::fs::canonicalize(&dir).unwrap();
     let root_uri = Url::from_file_path(&root).unwrap();
-    let mut pm = match ProjectManager::new(Some(root_uri), Box::new(NullLogger)) {
-        Ok(pm) => pm,
-        Err(_) => return "manager-failed".into(),
-    };
-    pm.index_files();
+    // one manager per queried file: what a file's answers are must not depend on which other
+    // documents happened to be analysed earlier (cache histories are C02's subject); all queries
+    // on one file share its manager, as consecutive requests on a document do in the server
+    let mut pms: std::collections::HashMap<usize, ProjectManager> = std::collections::HashMap::new();
     let uris: Vec<Url> = paths
         .iter()
         .map(|p| Url::from_file_path(std::fs::canonicalize(p).unwrap()).unwrap())
@@ -147,7 +147,15 @@ pub fn run(words: &[&str]) -> String {
         }
         let pos = Position::new(l, c);
         let uri = uris[f].clone();
-        let mut pmc = pm.clone(); // handlers run on a clone of the manager (shared services)
+        if !pms.contains_key(&f) {
+            let mut pm = match ProjectManager::new(Some(root_uri.clone()), Box::new(NullLogger)) {
+                Ok(pm) => pm,
+                Err(_) => return "manager-failed".into(),
+            };
+            pm.index_files();
+            pms.insert(f, pm);
+        }
+        let mut pmc = pms.get(&f).unwrap().clone(); // handlers run on a clone of the manager (shared services)
         let res = std::panic::catch_unwind(std::panic::AssertUnwindSafe(|| match k {
             'd' => match pmc.generate_goto_definitions(&uri, &pos) {
                 Ok(links) => links
